@@ -18,6 +18,7 @@ RULE = ('all 1440 HH:MM (x 3 carriers), HH:MM:SS stratified (every hour x minute
         'resolved time/datetime entity returned; distinct = distinct (query, reference date).')
 EXHAUSTIVE = False
 JOB_TIMEOUT = 1200
+FULL_WIDTH = str.maketrans('0123456789:', '０１２３４５６７８９：')
 TIME_CARRIERS = ['at {}', '{}', 'the meeting is at {} .', '   at {}']
 
 
@@ -240,6 +241,12 @@ def run(job, ctx):
     for i, (q, expr, ref, want, typ, cls, datepart) in enumerate(gen(job, ctx)):
         if i % job['shards'] == job['shard']:
             check(m, q, expr, ref, want, typ, ctx, cls, datepart)
+            if i % 6 == 0:
+                # typography: no-break space / tab for the blanks, full-width digits and colon
+                k = (i // 6) % 3
+                tr = (lambda x: x.replace(' ', '\u00a0')) if k == 0 else (lambda x: x.replace(' ', '\t')) if k == 1 else (lambda x: x.translate(FULL_WIDTH))
+                if tr(q) != q:
+                    check(m, tr(q), tr(expr), ref, want, typ, ctx, cls + '|typography', datepart)
             if job['part'] == 'composed' and i % 3 == 0:
                 check(m, '   ' + q + ' ', expr, ref, want, typ, ctx, cls, datepart)      # blanks around the sentence
             if job['part'] == 'composed' and i % 4 == 0:
